@@ -665,13 +665,20 @@ class Lexer(object):
     )
     identifier = identifier_start + identifier_part
 
-    getprop = r'get' + r'(?=\s' + identifier + r')'
+    # get/set introduce an accessor when a property name follows; any amount
+    # of white space and comments may separate the two
+    accessor_gap = (
+        r'(?:\s|/\*[^*]*\*+(?:[^/*][^*]*\*+)*/'
+        r'|//[^\r\n\u2028\u2029]*)+'
+    )
+
+    getprop = r'get' + r'(?=' + accessor_gap + identifier + r')'
 
     @ply.lex.TOKEN(getprop)
     def t_GETPROP(self, token):
         return token
 
-    setprop = r'set' + r'(?=\s' + identifier + r')'
+    setprop = r'set' + r'(?=' + accessor_gap + identifier + r')'
 
     @ply.lex.TOKEN(setprop)
     def t_SETPROP(self, token):
